@@ -15,7 +15,10 @@ generate_base = c16.generate
 
 
 def generate(R, tier):
-    for c in c16.generate(R, tier):
+    limit = 300 if tier == "quick" else 8000
+    for k, c in enumerate(c16.generate(R, tier)):
+        if k >= limit:
+            break
         c = dict(c, stream="calls")
         # signatures with every flag-affecting quirk so that impersonation has to set/clear PSH, URG, ACK, ...
         c["sigs"] = ["*:64:0:*:mss*10,6:mss,sok,ts,nop,ws:df,id+%s:0" % q for q in ("", ",pushf+", ",urgf+", ",ack-", ",seq-", ",ecn", ",uptr+")]
